@@ -39,8 +39,11 @@ def _draw_geom(rng, dim, hostile):
     else:
         angles = [float(rng.uniform(-math.pi, math.pi)) for _ in range(na)]
         anis = [float(np.exp(rng.uniform(math.log(0.2), math.log(5.0)))) for _ in range(dim - 1)]
-        if rng.random() < 0.2:
+        g = rng.random()
+        if g < 0.2:
             anis = [1.0] * (dim - 1)  # rotated but all ratios 1: still a rotation of the coordinates (drifts, period lattices see it)
+        elif g < 0.4:
+            angles = [0.0] * na  # stretched but not rotated (where "no rotation" shortcuts live)
     return angles, anis
 
 
